@@ -422,10 +422,15 @@ private:
             p += 3 + len;
         }
         const bool inwin = dt >= ll_->evt_start() && dt <= ll_->evt_end();
-        const bool pend0 = ll_->pending_outgoing_data_available();
-        // with automatic flags the exchanges have to be known before end_event(): run them through a copy of the flag logic
-        event_flags flags = event_flags::from_bits( fl < 0 ? 0 : unsigned( fl ) );
-        const std::vector< exchange > x = ll_->inject_event( dt, pdus, flags );
+        std::vector< exchange > x;
+        if ( !ll_->begin_event( dt ) ) { t_.ev( "Nop" ).f( "why", "no connection event armed" ); log_effects(); return; }
+        if ( pdus.empty() ) pdus.push_back( central_pdu::empty() );
+        for ( std::size_t i = 0; i != pdus.size(); ++i )
+            x.push_back( ll_->exchange_pdu( pdus[ i ], i + 1 != pdus.size() ) );
+        // flags: given, or (-1) what the nRF52 binding would report for these exchanges
+        const event_flags flags = fl < 0 ? link_layer_t::flags_of( x ) : event_flags::from_bits( unsigned( fl ) );
+        const bool pend0 = ll_->pending_outgoing_data_available();     // when the event ends (after the exchanges)
+        ll_->finish_event( flags );
         log_event( dt, inwin, flags, x, pend0 );
     }
 
@@ -458,7 +463,6 @@ private:
         }
         const us_t dt = sim_.next_anchor - ll_->t0();
         const long long ev = sim_.next_event;
-        const bool pend0 = ll_->pending_outgoing_data_available();
         std::vector< exchange > x;
         ll_->begin_event( dt );
         for ( long long i = 0; i < nexch; ++i )
@@ -471,6 +475,7 @@ private:
             x.push_back( ll_->exchange_pdu( from_queue ? sim_.queue.front() : central_pdu::empty(), more ) );
             if ( from_queue && x.back().central_acked ) { sim_.queue.pop_front(); sim_.ids.pop_front(); }
         }
+        const bool pend0 = ll_->pending_outgoing_data_available();     // when the event ends (after the exchanges)
         ll_->finish_event( flags );
         sim_.advance();
         if ( log ) log_event( dt, true, flags, x, pend0 );
@@ -502,17 +507,19 @@ private:
         }
     }
 
-    // ff <n>: n uneventful steps (empty PDUs, no flags), logged as one event
+    // ff <n>: uneventful steps (empty PDUs, no flags) until the anchor has advanced by at least n connection intervals
+    // (with peripheral latency one step advances several intervals); logged as one event
     void op_ff( const verif::command& c )
     {
         const us_t start = ll_->t0();
         const long long ev0 = sim_.next_event;
         long long done = 0;
-        for ( long long i = 0; i < c.arg( 0 ); ++i, ++done )
+        while ( sim_.active && sim_.interval && ( ll_->t0() - start ) / sim_.interval < c.arg( 0 ) )
         {
             if ( !do_step( false, event_flags(), 1, false ) ) break;
+            ++done;
             g_cb.clear();
-            if ( i + 1 < c.arg( 0 ) ) ll_->take_calls();
+            if ( ( ll_->t0() - start ) / sim_.interval < c.arg( 0 ) ) ll_->take_calls();
         }
         t_.ev( "FF" ).f( "n", done ).f( "ivals", sim_.interval ? ( ll_->t0() - start ) / sim_.interval : 0 ).f( "rem", sim_.interval ? ( ll_->t0() - start ) % sim_.interval : 0 )
           .f( "cev", sim_.next_event - ev0 );
